@@ -392,6 +392,9 @@ def run(ctx):
         from ..rules import arrayext
         na = arrayext.check_array_extents(ck, prog, config, 'C03-j', scope='all')
         ck.min_instances('(call, fixed-size array) sites', na, 6)
+        # ---- k  a failed zrealloc() through a temporary never leaves the field dangling
+        from ..rules import extra as _x3k
+        _x3k.check_realloc_keep(ck, prog, config, 'C03-k')
         # ---- e
         for name, table in (('zck_comp_name_from_type', 'COMP_NAME'), ('zck_hash_name_from_type', 'HASH_NAME')):
             fn = prog.need_func(name)
